@@ -263,6 +263,7 @@ func main() {
 		}
 	}
 	genDocs(r, rng.Fork())
+	bigDocs(r, rng.Fork())
 	files := histories(r, rng.Fork())
 	corruptions(r, rng.Fork(), files)
 }
